@@ -14,8 +14,9 @@ DECIDES = ('in-place discipline of translate / rotate / scale / transpose / flip
            'sandwiched between a translation by -origin and its exact negation (AL1-AL3); the rotation origin is evaluated once, on the first element and outside the loop over the elements (OR1.single-origin), at the start of the '
            'domain of *every* direction (OR1); both class hierarchies implement the iteration protocol that lets the transforms treat shapes '
            'and containers alike: __iter__ rewinds and returns self, __next__ yields each element once then stops (IT1). after an in-place transform no cached evaluated point survives (IV1 restricted to the evaluated points cache, entries include operations.* with inplace=True).')
-NOT_DECIDED = 'affine invariance of B-spline/NURBS evaluation itself (mathematics, trusted) and equality of evaluated points (needs C01); floating-point rounding of cos/sin.'
+NOT_DECIDED = ('affine invariance of B-spline/NURBS evaluation itself (mathematics, trusted) and equality of evaluated points (needs C01); floating-point rounding of cos/sin; the sense of rotation (the sign convention differs between the axes on the pinned tree and is not fixed by the property).')
 TECHNIQUE = 'alias/mutation analysis with branch pruning on the inplace flag; per-point map extraction; polynomial identities modulo cos^2+sin^2=1'
+DECIDES += (' [ABSTRACT INTERPRETATION, exact] RT2: rotate on an abstract container of two shapes turns every element about one origin, the start point of the first element evaluated at the domain start of every direction, the axis coordinate depending on itself only; RT3: the map is p -> o + M (p - o) with M orthogonal, det 1 and the axis fixed modulo cos^2 + sin^2 = 1, entries built from cos / sin of radians(angle) only; TR3: translate / scale are p + vec / p * m exactly on every element (AL1-AL3, OR1 only corroborate).')
 
 INPLACE_FUNCS = ['operations.translate', 'operations.rotate', 'operations.scale', 'operations.transpose', 'operations.flip', 'operations.add_dimension']
 
